@@ -357,4 +357,29 @@ class EqualPairs(SubCheck):
         return {'nontrivial': case['how'] != 'same' or type(k1) not in (str, bytes), 'classes': ['how=' + case['how']]}
 
 
-SUBCHECKS = [Histories(), Routing(), Golden(), EqualPairs()]
+class AggregatesUnderContention(SubCheck):
+    """clear/evict/expire/cull totals when shards time out repeatedly in the middle (another writer takes and gives back
+    the lock): the total must equal that of an undisturbed twin and cover every shard exactly once."""
+
+    name = 'aggregate_totals_under_contention'
+    exhaustive = True
+
+    def examples(self, tier):
+        return 0
+
+    def enumerate(self, tier):
+        for name in ('clear', 'evict', 'expire', 'cull'):
+            for val in ('inline', 'file'):
+                yield {'cell': ('fanout', 'loop:' + name, ('flap',), val, True, 'fast')}
+
+    def execute(self, case, env):
+        from . import c14
+
+        cell = tuple(tuple(x) if isinstance(x, list) else x for x in case['cell'])
+        try:
+            return c14.execute_cell(env, cell, {})
+        except Violation as v:
+            raise Violation('C13/aggregate-total/' + v.signature.split('/', 1)[1], v.detail)
+
+
+SUBCHECKS = [Histories(), Routing(), Golden(), EqualPairs(), AggregatesUnderContention()]
